@@ -49,6 +49,14 @@ ALSO_C20 = {
     'E5-start': 'the reachability search starts at src',
     'E5-expand': 'the reachability search follows children of the popped node',
     'E5-scratch': 'stale scratch entries change reachability answers',
+    # order of validation: a task must not run (and have its operations validated) before the scheduled / recorded dependencies in front of
+    # it were brought up to date - their edges of the earlier state are dropped only when they re-execute
+    'Q1-sort-always': 'bottom-up: a stale queue order executes a task before a scheduled task it depends on, whose old edges are then consulted',
+    'Q1-side': 'bottom-up: selecting from the wrong end of the sorted queue executes dependants first',
+    'Q1-comparator': 'bottom-up: reversed comparator executes dependants first',
+    'Q4-orientation': 'bottom-up: require-now must run the scheduled tasks the required task depends on',
+    'TD-check-neg-exit': 'top-down: validation must stop at the first inconsistent dependency; going on makes later (possibly no longer required) tasks consistent '
+                         'while the checked task still owns its edges of the earlier state',
 }
 
 
@@ -128,6 +136,13 @@ def rule_c20(ctx):
             else:  # recorded-readers: the violation is "a reader without a transitive dependency on the writer"
                 for t in b.find_calls(lambda t: F.callee_body(t) is not None and F.callee_body(t).id == roles.trans_req.id):
                     viol |= {nd for nd, g in guard_edges_on_call(b, t) if g.truth() is False}
+                # the same test inside an iterator adaptor over the readers (find / position: Some, any: true, all: false); that the closure
+                # really is the negated reachability test is VAL-readers-guard's obligation
+                for fc in b.find_calls(lambda f: f.qname.startswith('std::iter::Iterator::') and f.args and c.bb in ctx.base_call_bbs(b.orig_operand(f.args[0]))):
+                    nm = fc.qname.split('::')[-1]
+                    for nd, g in guard_edges_on_call(b, fc):
+                        if (nm in ('find', 'position', 'find_map') and g.variants() == frozenset(['Some'])) or (nm == 'any' and g.truth() is True) or (nm == 'all' and g.truth() is False):
+                            viol.add(nd)
         aborts = _explicit_aborts(b)
         seen = b.reach([0], avoid=ctx.both(inf, lambda x: x in viol))
         for bb in aborts:
